@@ -527,7 +527,7 @@ func runC17b(t *testing.T, c c17bCase, tr *vw.Trace) (viol *vw.Violation) {
 
 func TestVerifC17Virtual(t *testing.T) {
 	vw.Run(t, vw.Options{Property: "C17", Engine: "virtual-session",
-		Rule: "iBGP/eBGP x 4-byte capable peer, optionally one handshake with an unexpected ASN, 1..4 route sets over 5 prefixes, 2..14 actions: Set, peer hangs up now / after exactly k more bytes (1..200, i.e. inside the handshake, an UPDATE, a withdraw or a KEEPALIVE), advance the virtual clock (keepalive ticks, back-off), yield to the sender, settle-and-compare; Close while connected or while backing off; the peer's table of the live connection must equal the last requested set whenever the connection is up, nothing is pending and every goroutine is idle; non-trivial = >=1 connection loss and a withdraw or attribute-only change",
+		Rule: "iBGP/eBGP x 4-byte capable peer, optionally one handshake with an unexpected ASN, 1..4 route sets over 5 prefixes (two of them share a network address and differ in length), 2..14 actions: Set, peer hangs up now / after exactly k more bytes (1..200, i.e. inside the handshake, an UPDATE, a withdraw or a KEEPALIVE), advance the virtual clock (keepalive ticks, back-off), yield to the sender, settle-and-compare; Close while connected or while backing off; the peer's table of the live connection must equal the last requested set whenever the connection is up, nothing is pending and every goroutine is idle; non-trivial = >=1 connection loss and a withdraw or attribute-only change",
 		Assumptions: []string{"go1.26.8 testing/synctest; the transport is net.Pipe (unbuffered: a write completes when the peer has read it)",
 			"the dialling half of connect() and the retry loop of run() are re-stated by the harness (dialMD5 needs real sockets); the loopback engine covers the real ones"}},
 		genC17b,
